@@ -75,7 +75,7 @@ class ExprTheory:
         self.expressions = z3.Function("expressions", E, S)
         self.PROD = z3.Function("PROD", S, R)
         self.OKS = z3.Function("OKS", S, B)
-        self.nil = z3.Const("nil", S)
+        self.nil = z3.Const("eseq_nil", S)
         self.unit = z3.Function("unit", E, S)
         self.cat = z3.Function("cat", S, S, S)
         self.head = z3.Function("head", S, E)
@@ -92,8 +92,8 @@ class ExprTheory:
         self.mapped = {}                                     # contract qualname -> ESeq -> ESeq
         self.eqv: list = []                                  # (x, r): r = f(x) for a denotation-preserving f (every environment)
         self.sums: dict = {}                                 # id -> (array term, body term)
-        self.one = z3.Const("One", E)
-        self.zero = z3.Const("Zero", E)
+        self.one = z3.Const("expr_one", E)
+        self.zero = z3.Const("expr_zero", E)
         self.eterms: dict = {}
         self.sterms: dict = {}
         self.facts: list = []
@@ -232,7 +232,11 @@ class ExprTheory:
             for u in self.L.universe:
                 arr = z3.Store(arr, u, vset.has(u))
             return arr
-        return z3.Lambda([x], vset.has(x))
+        # a fresh array constant defined pointwise (no lambda: the SMT-LIB text must stay first-order for cvc5)
+        nm = self.L.fresh_name("rangeset")
+        arr = z3.Const(nm, self.NodeSet)
+        self.L.add_axioms({nm}, [self.L.forall_c([x], z3.Select(arr, x) == vset.has(x))])
+        return arr
 
     # ---- constructors
     def fresh(self, name):
